@@ -40,42 +40,42 @@ noncomputable def ndD (L : Mat3) (e : ℝ) : Mat3 := fun i j => (L i j + L j i) 
 /-- nondimensional velocity gradient passed to `derivatives` -/
 noncomputable def ndL (L : Mat3) (e : ℝ) : Mat3 := fun i j => L i j / e
 
-/-- every accepted evaluation of `eval_rhs` has one of two shapes -/
+/-- the scale `eval_rhs` nondimensionalises with: the largest principal strain rate, or 1 when there is no deformation -/
+noncomputable def rhsScale (env : RhsEnv) : ℝ := if env.emax = 0 then 1 else env.emax
+
+theorem rhsScale_ne_zero (env : RhsEnv) : rhsScale env ≠ 0 := by
+  unfold rhsScale; split_ifs with h
+  · exact one_ne_zero
+  · exact h
+
+/-- every accepted evaluation of `eval_rhs`: the F block is `L F`, the texture blocks are the solver's rates for the
+nondimensionalised flow multiplied back by the scale -/
 theorem evalRhs_ok (phase fabric : Int) (n : ℕ) (mp : MParams) (env : RhsEnv) (y out : List ℝ)
     (h : evalRhs phase fabric n mp env y = .ok out) :
     ∃ phi, lookupFraction mp.assemblage mp.fractions phase = .ok phi ∧
-      ((env.emax = 0 ∧ out = mat3ToList (mmul env.L (extractVars n y).1) ++ zerosR (n * 10)) ∨
-       (env.emax ≠ 0 ∧ ∃ ad fd,
+      ∃ ad fd,
           derivatives env.regime phase fabric (extractVars n y).2.A (extractVars n y).2.f
-            (ndD env.L env.emax) (ndL env.L env.emax) env.spin ⟨mp.p, mp.n, mp.lam, mp.M, phi⟩ = .ok (ad, fd) ∧
+            (ndD env.L (rhsScale env)) (ndL env.L (rhsScale env)) env.spin ⟨mp.p, mp.n, mp.lam, mp.M, phi⟩ = .ok (ad, fd) ∧
           out = mat3ToList (mmul env.L (extractVars n y).1)
-                  ++ (ad.flatMap mat3ToList).map (· * env.emax) ++ fd.map (· * env.emax))) := by
+                  ++ (ad.flatMap mat3ToList).map (· * rhsScale env) ++ fd.map (· * rhsScale env) := by
   unfold evalRhs at h
   cases hl : lookupFraction mp.assemblage mp.fractions phase with
   | error e => simp [hl] at h
   | ok phi =>
     refine ⟨phi, rfl, ?_⟩
     simp only [hl, Req_iff, Mat3.memo_eq] at h
-    by_cases he : env.emax = 0
-    · left
-      simp only [he, if_true] at h
+    cases hd : derivatives env.regime phase fabric (extractVars n y).2.A (extractVars n y).2.f
+        (ndD env.L (rhsScale env)) (ndL env.L (rhsScale env)) env.spin ⟨mp.p, mp.n, mp.lam, mp.M, phi⟩ with
+    | error er =>
+      unfold ndD ndL rhsScale at hd
+      simp [hd] at h
+    | ok r =>
+      obtain ⟨ad, fd⟩ := r
+      have hd' := hd
+      unfold ndD ndL rhsScale at hd'
+      simp only [hd'] at h
       injection h with h
-      exact ⟨he, h.symm⟩
-    · right
-      simp only [he, if_false] at h
-      refine ⟨he, ?_⟩
-      cases hd : derivatives env.regime phase fabric (extractVars n y).2.A (extractVars n y).2.f
-          (ndD env.L env.emax) (ndL env.L env.emax) env.spin ⟨mp.p, mp.n, mp.lam, mp.M, phi⟩ with
-      | error er =>
-        unfold ndD ndL at hd
-        simp [hd] at h
-      | ok r =>
-        obtain ⟨ad, fd⟩ := r
-        have hd' := hd
-        unfold ndD ndL at hd'
-        simp only [hd'] at h
-        injection h with h
-        exact ⟨ad, fd, rfl, h.symm⟩
+      exact ⟨ad, fd, rfl, by simpa only [rhsScale] using h.symm⟩
 
 end ModelR
 
